@@ -403,6 +403,9 @@ func vfNewSim(t *testing.T, spec *vfSpec, res *vfRes) *vfSim {
 		return &sn
 	}
 	vfSimByNet.Store(s.net, s)
+	if spec.Yield > 0 {
+		s.net.closeGrace = 50 * time.Millisecond
+	}
 	vfInstallHooks()
 	go s.net.pump()
 
